@@ -16,10 +16,41 @@ theorem offenders_eq (rows : List VRow) (dtName : Nat → Option Str) :
   funext r
   cases potentially dtName r <;> simp
 
+theorem bad_all_valid (rows : List VRow) (dtName : Nat → Option Str)
+    (h : ((checkedRows rows).filter (potentially dtName)).all (fun r => decide (classOf r = expectedOf dtName r)) = true) :
+    offenders rows dtName = [] := by
+  rw [← offenders_eq]
+  apply List.filter_eq_nil_iff.2
+  intro r hr
+  rw [List.all_eq_true] at h
+  have := h r hr
+  simp only [decide_eq_true_eq] at this
+  simp [this]
+
+/-- **the decision, exactly**: with every checked variable declaring a DataType, the write is accepted
+    when there is no offending variable and is rejected with the value-mismatch error naming exactly
+    the offending variables (in table order) when there is one -/
+theorem decision (rows : List VRow) (dtName : Nat → Option Str)
+    (hd : ∀ r ∈ checkedRows rows, r.dataType.isNone = false) :
+    validateValues rows dtName =
+      if offenders rows dtName = [] then .ok () else .error (.invalid ((offenders rows dtName).map (·.display))) := by
+  unfold validateValues
+  simp only
+  by_cases h1 : checkedRows rows = []
+  · simp [h1, offenders]
+  · have h2 : (checkedRows rows).any (fun r => r.dataType.isNone) = false := by
+      simp only [List.any_eq_false]; intro x hx; simp [hd x hx]
+    simp only [h1, if_false, h2, Bool.false_eq_true]
+    by_cases h3 : ((checkedRows rows).filter (potentially dtName)).all (fun r => decide (classOf r = expectedOf dtName r)) = true
+    · simp [h3, bad_all_valid rows dtName h3]
+    · simp only [h3, if_false, offenders_eq]
+      simp
+
 /-- **names_exact**: whenever the validator rejects for a value mismatch, the message names exactly
-    the offending variables, in table order -/
+    the offending variables, in table order — and there is at least one -/
 theorem names_exact (rows : List VRow) (dtName : Nat → Option Str) (names : List Str)
-    (h : validateValues rows dtName = .error (.invalid names)) : names = (offenders rows dtName).map (·.display) := by
+    (h : validateValues rows dtName = .error (.invalid names)) :
+    names = (offenders rows dtName).map (·.display) ∧ offenders rows dtName ≠ [] := by
   unfold validateValues at h
   simp only at h
   split at h
@@ -28,63 +59,25 @@ theorem names_exact (rows : List VRow) (dtName : Nat → Option Str) (names : Li
     · simp at h
     · split at h
       · simp at h
-      · split at h
+      · rw [offenders_eq] at h
+        split at h
         · simp at h
-        · simp only [Except.error.injEq, ValErr.invalid.injEq] at h
-          rw [← h, offenders_eq]
+        · next hne =>
+          simp only [Except.error.injEq, ValErr.invalid.injEq] at h
+          exact ⟨h.symm, hne⟩
 
-/-- **rejects**: with every checked variable declaring a DataType, one offending variable is enough
-    for the write to be rejected, and the error is the value-mismatch error naming the offenders -/
+/-- **rejects**: one offending variable is enough for the write to be rejected -/
 theorem offender_rejected (rows : List VRow) (dtName : Nat → Option Str)
     (hd : ∀ r ∈ checkedRows rows, r.dataType.isNone = false) (r : VRow) (hr : r ∈ offenders rows dtName) :
     validateValues rows dtName = .error (.invalid ((offenders rows dtName).map (·.display))) := by
-  have hrc : r ∈ checkedRows rows := (List.mem_filter.1 hr).1
-  have hoff : offending dtName r = true := (List.mem_filter.1 hr).2
-  unfold offending at hoff
-  simp only [Bool.and_eq_true, Bool.not_eq_true', decide_eq_false_iff_not] at hoff
-  obtain ⟨⟨hp, hne⟩, hnenum⟩ := hoff
-  have hpot : r ∈ (checkedRows rows).filter (potentially dtName) := List.mem_filter.2 ⟨hrc, hp⟩
-  unfold validateValues
-  simp only
-  have h1 : checkedRows rows ≠ [] := List.ne_nil_of_mem hrc
-  have h2 : (checkedRows rows).any (fun r => r.dataType.isNone) = false := by
-    simp only [List.any_eq_false]; intro x hx; simp [hd x hx]
-  have h3 : ((checkedRows rows).filter (potentially dtName)).all (fun r => decide (classOf r = expectedOf dtName r)) = false := by
-    cases hh : ((checkedRows rows).filter (potentially dtName)).all (fun r => decide (classOf r = expectedOf dtName r)) with
-    | false => rfl
-    | true =>
-      rw [List.all_eq_true] at hh
-      have := hh r hpot
-      simp only [decide_eq_true_eq] at this
-      exact absurd this hne
-  have h4 : ((checkedRows rows).filter (potentially dtName)).all (fun r => decide (classOf r = kUAEnumeration)) = false := by
-    cases hh : ((checkedRows rows).filter (potentially dtName)).all (fun r => decide (classOf r = kUAEnumeration)) with
-    | false => rfl
-    | true =>
-      rw [List.all_eq_true] at hh
-      have := hh r hpot
-      simp only [decide_eq_true_eq] at this
-      exact absurd this hnenum
-  simp only [h1, if_false, h2, Bool.false_eq_true, h3, h4, offenders_eq]
+  rw [decision rows dtName hd, if_neg (List.ne_nil_of_mem hr)]
 
-/-- **accepts**: when no checked variable offends — and no enumeration value declares a built-in
-    DataType of another name, which graph construction never produces — the write goes ahead -/
+/-- **accepts**: when no checked variable offends, the write goes ahead — whatever enumeration and
+    list values are among the variables -/
 theorem no_offender_accepted (rows : List VRow) (dtName : Nat → Option Str)
-    (hd : ∀ r ∈ checkedRows rows, r.dataType.isNone = false)
-    (hno : ∀ r ∈ checkedRows rows, potentially dtName r = true → classOf r = expectedOf dtName r) :
+    (hd : ∀ r ∈ checkedRows rows, r.dataType.isNone = false) (hno : offenders rows dtName = []) :
     validateValues rows dtName = .ok () := by
-  unfold validateValues
-  simp only
-  split
-  · rfl
-  · have h2 : (checkedRows rows).any (fun r => r.dataType.isNone) = false := by
-      simp only [List.any_eq_false]; intro x hx; simp [hd x hx]
-    have h3 : ((checkedRows rows).filter (potentially dtName)).all (fun r => decide (classOf r = expectedOf dtName r)) = true := by
-      rw [List.all_eq_true]
-      intro x hx
-      have := List.mem_filter.1 hx
-      simp [hno x this.1 this.2]
-    simp only [h2, Bool.false_eq_true, if_false, h3, if_true]
+  rw [decision rows dtName hd, if_pos hno]
 
 /-- **never rejected for a value mismatch**: list values, enumeration values and variables whose
     DataType is not a built-in type are not offenders, whatever they hold -/
@@ -121,5 +114,9 @@ example : validateValues [⟨kUAVariable, "Bad".toList, some "UAString".toList, 
                           ⟨kUAVariable, "L".toList, some "UAListOf".toList, some 6⟩,
                           ⟨kUAVariable, "E".toList, some "UAEnumeration".toList, some 99⟩] dt =
     .error (.invalid ["Bad".toList]) := by decide
+/-- the regression of the repaired defect: an enumeration value under a built-in DataType of another
+    name next to a correctly typed variable is accepted -/
+example : validateValues [⟨kUAVariable, "Good".toList, some "UAInt32".toList, some 6⟩,
+                          ⟨kUAVariable, "E".toList, some "UAEnumeration".toList, some 12⟩] dt = .ok () := by decide
 
 end Opcua.C16
